@@ -534,7 +534,13 @@ func (c *Chain) bindingMsg(e *Event) sdk.Msg {
 		if e.SigMode == "wrongkey" {
 			signer = c.Acc(e.Creator)
 			if signer == nil || signer == target {
-				signer = c.Accs[0]
+				// any account other than the one being bound
+				for _, a := range c.Accs {
+					if a != target {
+						signer = a
+						break
+					}
+				}
 			}
 		}
 		bz, _ := signer.Priv.Sign(didkeeper.GetSignData(target.Addr.String(), message))
